@@ -144,12 +144,12 @@ class Case:
                 'meta': self.meta}
 
 class Outcome:
-    __slots__ = ('ret', 'handlers', 'fault', 'blocks', 'raw', 'statics', 'alloc')
+    __slots__ = ('ret', 'handlers', 'fault', 'blocks', 'raw', 'statics', 'alloc', 'fields')
     def __init__(self, line):
         self.raw = line
         f = line.split()
         d = dict(x.split('=', 1) for x in f[1:])
-        self.ret = d.get('ret')
+        self.ret = d.get('ret'); self.fields = d
         h = d.get('h', '-')
         self.handlers = [] if h == '-' else [tuple(x.split(':')) for x in h.split(',')]
         self.fault = d.get('fault', '-')
